@@ -9,6 +9,13 @@
 (* lower of the two tips, i.e. ftip.                                       *)
 (*                                                                         *)
 (* Shared state: cache (FilterCache: the set of blocks whose filter it     *)
+(* ph: blocks for which the database holds a PLACEHOLDER (an empty value:   *)
+(* "block known, no filter" - what FilterDatabase.PutFilters writes for a   *)
+(* FilterData whose Filter is nil; FetchFilter answers (nil, nil) for it    *)
+(* and GetCFilter goes on to the network; a later write of the real filter  *)
+(* replaces it).  The client never writes one itself: it is a class of      *)
+(* INITIAL database states (a database written through the exported API by  *)
+(* another writer / an older version).                                      *)
 (* holds - the code only ever stores verified filters, so a set of ids is  *)
 (* enough for the MODEL; what the real cache holds is projected with a     *)
 (* garbage marker, see FilterQueryProps), db (FilterDB), wq (items handed  *)
@@ -41,14 +48,15 @@ CONSTANTS BTip,       \* height of the block header tip (>= 1)
           Modes1, Caps1, Targets1,   \* arguments caller 1 may use
           Modes2, Caps2, Targets2,   \* arguments caller 2 may use
           Persists,   \* subset of BOOLEAN: persistToDisk
+          PHBlocks,   \* blocks that may carry a placeholder entry in the database at the start
           BadAll      \* TRUE: bad responses about every block; FALSE: only about requested blocks
 
-VARIABLES cache, db, wq, mtx, ftip, persist,
+VARIABLES cache, db, ph, wq, mtx, ftip, persist,
           pc, tgt, mode, cap, lo, hi, pending, got, val, ret,
           abs, act, viol
 
-cvars == <<cache, db, wq, mtx, ftip, persist, pc, tgt, mode, cap, lo, hi, pending, got, val, ret>>
-vars  == <<cache, db, wq, mtx, ftip, persist, pc, tgt, mode, cap, lo, hi, pending, got, val, ret,
+cvars == <<cache, db, ph, wq, mtx, ftip, persist, pc, tgt, mode, cap, lo, hi, pending, got, val, ret>>
+vars  == <<cache, db, ph, wq, mtx, ftip, persist, pc, tgt, mode, cap, lo, hi, pending, got, val, ret,
            abs, act, viol>>
 
 Callers == 1..NC
@@ -59,7 +67,9 @@ BATCH   == 1000                 \* wire.MaxGetCFiltersReqRange
 Bit(S)  == [i \in 1..(BTip + 1) |-> IF (i - 1) \in S THEN 1 ELSE 0]
 
 Obs == [ret     |-> <<ret[1], IF NC >= 2 THEN ret[2] ELSE RUN>>,
-        cache   |-> Bit(cache), db |-> Bit(db), wq |-> [i \in 1..(BTip + 1) |-> wq[i - 1]],
+        cache   |-> Bit(cache),
+        db      |-> [i \in 1..(BTip + 1) |-> IF (i - 1) \in db THEN 1 ELSE IF (i - 1) \in ph THEN 2 ELSE 0],
+        wq |-> [i \in 1..(BTip + 1) |-> wq[i - 1]],
         cx |-> 0, dx |-> 0, wx |-> 0,
         btip    |-> BTip, ftip |-> ftip,
         persist |-> IF persist THEN 1 ELSE 0]
@@ -95,15 +105,15 @@ CacheLookup(c, t, m, cp) ==
   /\ tgt' = [tgt EXCEPT ![c] = t] /\ mode' = [mode EXCEPT ![c] = m] /\ cap' = [cap EXCEPT ![c] = cp]
   /\ IF t \in cache
      THEN /\ pc' = [pc EXCEPT ![c] = "ret"] /\ val' = [val EXCEPT ![c] = t]
-          /\ UNCHANGED <<cache, db, wq, mtx, ftip, persist, lo, hi, pending, got, ret>>
+          /\ UNCHANGED <<ph, cache, db, wq, mtx, ftip, persist, lo, hi, pending, got, ret>>
           /\ Finish(A("CacheLookup", c, "", 0, RUN, RUN, "hit"))
      ELSE /\ pc' = [pc EXCEPT ![c] = "db"]
-          /\ UNCHANGED <<cache, db, wq, mtx, ftip, persist, lo, hi, pending, got, val, ret>>
+          /\ UNCHANGED <<ph, cache, db, wq, mtx, ftip, persist, lo, hi, pending, got, val, ret>>
           /\ Finish(A("CacheLookup", c, "", 0, RUN, RUN, "miss"))
 
 DbLookup(c) ==
   /\ pc[c] = "db"
-  /\ UNCHANGED <<cache, db, wq, mtx, ftip, persist, tgt, mode, cap, lo, hi, pending, got, ret>>
+  /\ UNCHANGED <<ph, cache, db, wq, mtx, ftip, persist, tgt, mode, cap, lo, hi, pending, got, ret>>
   /\ IF tgt[c] \in db
      THEN /\ pc' = [pc EXCEPT ![c] = "ret"] /\ val' = [val EXCEPT ![c] = tgt[c]]
           /\ Finish(A("DbLookup", c, "", 0, RUN, RUN, "hit"))
@@ -113,12 +123,12 @@ DbLookup(c) ==
 Lock(c) ==
   /\ pc[c] = "lock" /\ mtx = 0
   /\ mtx' = c /\ pc' = [pc EXCEPT ![c] = "cache2"]
-  /\ UNCHANGED <<cache, db, wq, ftip, persist, tgt, mode, cap, lo, hi, pending, got, val, ret>>
+  /\ UNCHANGED <<ph, cache, db, wq, ftip, persist, tgt, mode, cap, lo, hi, pending, got, val, ret>>
   /\ Finish(A("Lock", c, "", 0, RUN, RUN, "ok"))
 
 CacheLookup2(c) ==
   /\ pc[c] = "cache2"
-  /\ UNCHANGED <<cache, db, wq, ftip, persist, tgt, mode, cap, lo, hi, pending, got, ret>>
+  /\ UNCHANGED <<ph, cache, db, wq, ftip, persist, tgt, mode, cap, lo, hi, pending, got, ret>>
   /\ IF tgt[c] \in cache
      THEN /\ pc' = [pc EXCEPT ![c] = "ret"] /\ val' = [val EXCEPT ![c] = tgt[c]]
           /\ Release(c)
@@ -135,7 +145,7 @@ Prepare(c) ==
       n == r[2] - r[1] + 1
   IN
   /\ pc[c] = "prep"
-  /\ UNCHANGED <<cache, db, wq, ftip, persist, tgt, mode, cap, got, ret>>
+  /\ UNCHANGED <<ph, cache, db, wq, ftip, persist, tgt, mode, cap, got, ret>>
   /\ IF tgt[c] = Unknown \/ n < 0
      THEN /\ pc' = [pc EXCEPT ![c] = "ret"] /\ val' = [val EXCEPT ![c] = ERR]
           /\ Release(c) /\ UNCHANGED <<lo, hi, pending>>
@@ -150,7 +160,7 @@ Submit(c) ==
   /\ pc[c] = "submit"
   /\ pc' = [pc EXCEPT ![c] = "query"]
   /\ got' = [got EXCEPT ![c] = FALSE]
-  /\ UNCHANGED <<cache, db, wq, mtx, ftip, persist, tgt, mode, cap, lo, hi, pending, val, ret>>
+  /\ UNCHANGED <<ph, cache, db, wq, mtx, ftip, persist, tgt, mode, cap, lo, hi, pending, val, ret>>
   /\ Finish(A("Submit", c, "", 0, lo[c], hi[c], "ok"))
 
 \* handleResponse.  Only the true filter of a block still in headerIndex has
@@ -165,7 +175,7 @@ Resp(c, k, b) ==
        [] k \in {"wrong", "malformed", "wrongtype"} -> b \in 1..BTip /\ (BadAll \/ inrange)
        [] k = "noncf" -> b = 0
        [] OTHER -> FALSE
-  /\ UNCHANGED <<db, mtx, ftip, persist, pc, tgt, mode, cap, lo, hi, val, ret>>
+  /\ UNCHANGED <<ph, db, mtx, ftip, persist, pc, tgt, mode, cap, lo, hi, val, ret>>
   /\ IF k = "true" /\ b \in pending[c]
      THEN /\ cache' = cache \cup {b}
           /\ wq' = IF persist THEN [wq EXCEPT ![b] = @ + 1] ELSE wq
@@ -181,19 +191,20 @@ Verdict(c, v) ==
   /\ pc' = [pc EXCEPT ![c] = "ret"]
   /\ val' = [val EXCEPT ![c] = IF v = "ok" /\ got[c] THEN tgt[c] ELSE ERR]
   /\ Release(c)
-  /\ UNCHANGED <<cache, db, wq, ftip, persist, tgt, mode, cap, lo, hi, pending, got, ret>>
+  /\ UNCHANGED <<ph, cache, db, wq, ftip, persist, tgt, mode, cap, lo, hi, pending, got, ret>>
   /\ Finish(A("Verdict", c, v, 0, lo[c], hi[c], "ok"))
 
 Return(c) ==
   /\ pc[c] = "ret"
   /\ pc' = [pc EXCEPT ![c] = "done"]
   /\ ret' = [ret EXCEPT ![c] = val[c]]
-  /\ UNCHANGED <<cache, db, wq, mtx, ftip, persist, tgt, mode, cap, lo, hi, pending, got, val>>
+  /\ UNCHANGED <<ph, cache, db, wq, mtx, ftip, persist, tgt, mode, cap, lo, hi, pending, got, val>>
   /\ Finish(A("Return", c, "", 0, RUN, RUN, IF val[c] = ERR THEN "err" ELSE "ok"))
 
 Flush ==
   /\ \E b \in Blocks : wq[b] > 0
   /\ db' = db \cup {b \in Blocks : wq[b] > 0} /\ wq' = [b \in Blocks |-> 0]
+  /\ ph' = ph \ {b \in Blocks : wq[b] > 0}        \* putFilter overwrites a placeholder
   /\ UNCHANGED <<cache, mtx, ftip, persist, pc, tgt, mode, cap, lo, hi, pending, got, val, ret>>
   /\ Finish(A("Flush", 0, "", 0, RUN, RUN, "ok"))
 
@@ -202,6 +213,7 @@ Classes == {"true", "dup", "wrong", "malformed", "wrongtype", "noncf"}
 Init ==
   /\ ftip \in FTips /\ persist \in Persists
   /\ cache = {} /\ db = {0} /\ wq = [b \in Blocks |-> 0] /\ mtx = 0
+  /\ ph \in {{}} \cup {{b} : b \in PHBlocks}
   /\ pc = [c \in Callers |-> "idle"]
   /\ tgt = [c \in Callers |-> RUN] /\ mode = [c \in Callers |-> ""] /\ cap = [c \in Callers |-> 0]
   /\ lo = [c \in Callers |-> RUN] /\ hi = [c \in Callers |-> RUN]
@@ -226,7 +238,7 @@ Spec == Init /\ [][Next]_vars
 
 ----------------------------------------------------------------------------
 TypeOK ==
-  /\ cache \subseteq Blocks /\ db \subseteq Blocks /\ \A b \in Blocks : wq[b] \in 0..NC
+  /\ cache \subseteq Blocks /\ db \subseteq Blocks /\ ph \subseteq Blocks /\ ph \cap db = {} /\ \A b \in Blocks : wq[b] \in 0..NC
   /\ mtx \in 0..NC
   /\ \A c \in Callers : pending[c] \subseteq Blocks
 
@@ -240,8 +252,8 @@ SingleFlight ==
 \* What the model stores is verified: only blocks whose filter header is committed.
 StoredCommitted == (cache \cup db \cup {b \in Blocks : wq[b] > 0}) \subseteq 0..ftip
 
-State == [cache |-> cache, db |-> db, wq |-> wq, mtx |-> mtx, ftip |-> ftip, persist |-> persist,
+State == [cache |-> cache, db |-> db, ph |-> ph, wq |-> wq, mtx |-> mtx, ftip |-> ftip, persist |-> persist,
           pc |-> pc, tgt |-> tgt, mode |-> mode, cap |-> cap, lo |-> lo, hi |-> hi,
           pending |-> pending, got |-> got, val |-> val, ret |-> ret]
-View == <<cache, db, wq, mtx, ftip, persist, pc, tgt, mode, cap, lo, hi, pending, got, val, ret, abs>>
+View == <<cache, db, ph, wq, mtx, ftip, persist, pc, tgt, mode, cap, lo, hi, pending, got, val, ret, abs>>
 =============================================================================
